@@ -177,8 +177,7 @@ theorem closed_window_sends_nothing_new (s : Tx) (sackNeeded : Bool) (now : Nat)
 /-- a record is covered by the cumulative TSN `cum` -/
 def Covered (cum : UInt32) (r : SRec) : Bool := i32NonPos (r.tsn - cum)
 
-/-- **no_rexmit_after_covering_sack** (the part that holds): unless the SACK is discarded by the
-late-SACK filter, every record whose TSN the cumulative ack covers is *gone from the sent queue*
+/-- unless the SACK is discarded by the late-SACK filter, every record whose TSN the cumulative ack covers is *gone from the sent queue*
 after `apply_sack_to_sent_queue` — so neither T3, fast retransmit nor the tail-loss probe can
 send it again. All queues, SACKs, gap blocks, times. -/
 theorem no_rexmit_after_covering_sack_partial (q : List SRec) (cum : UInt32) (gaps : List (UInt16 × UInt16))
@@ -208,35 +207,48 @@ theorem no_rexmit_after_covering_sack_partial (q : List SRec) (cum : UInt32) (ga
   simp only [Covered, ← heq]
   simpa using this
 
-/-- a SACK whose cumulative TSN is serially at or after the queue's numerically lowest TSN is never
-discarded as late — so away from the 2^32 wrap (where the lowest key is the oldest TSN) a covering
-SACK always takes effect -/
-theorem covering_sack_not_late (lo : SRec) (rest : List SRec) (cum : UInt32) (gaps : List (UInt16 × UInt16))
-    (h : (cum - lo.tsn).toNat < 2147483647) : lateSack (lo :: rest) cum gaps = false := by
-  have : i32Neg (cum - (lo.tsn - 1)) = false := by
-    simp only [i32Neg, ge_iff_le, decide_eq_false_iff_not, UInt32.le_iff_toNat_le, Nat.not_le]
-    have e : (cum - (lo.tsn - 1)).toNat = ((cum - lo.tsn).toNat + 1) % 4294967296 := by
-      have h1 := lo.tsn.toNat_lt
-      have h2 := cum.toNat_lt
-      simp only [UInt32.toNat_sub, UInt32.toNat_one]
-      omega
-    rw [e]
-    show _ < 2147483648
-    omega
-  simp [lateSack, this]
+/-- **no_rexmit_after_covering_sack** (full): once `apply_sack_to_sent_queue` has processed a
+SACK, no record whose TSN the cumulative ack covers is left in the sent queue — so neither T3, fast
+retransmit nor the tail-loss probe can send it again. For every queue (TSN wrap inside the queue
+included), SACK, gap blocks and time, under the serial-number window: the cumulative TSN is less
+than 2^31 − 1 beyond any outstanding chunk it covers. -/
+theorem no_rexmit_after_covering_sack (q : List SRec) (cum : UInt32) (gaps : List (UInt16 × UInt16))
+    (now : Nat) (cm : Bool) (mx : Nat)
+    (hwin : ∀ r ∈ q, Covered cum r = true → (cum - r.tsn).toNat < 2147483647) :
+    ∀ r ∈ (applySack q cum gaps now cm mx).1, Covered cum r = false := by
+  by_cases hlate : lateSack q cum gaps = false
+  · exact no_rexmit_after_covering_sack_partial q cum gaps now cm mx hlate
+  · have hl : lateSack q cum gaps = true := by simpa using hlate
+    intro r hr
+    simp only [applySack, hl, if_true] at hr
+    -- the filter fired: show that then nothing in the queue is covered
+    cases hc : Covered cum r with
+    | false => rfl
+    | true =>
+      exfalso
+      have hne : q ≠ [] := by intro h; rw [h] at hr; simp at hr
+      obtain ⟨lo, hlo, hmem, hle⟩ := serialMin_spec cum q hne
+      have hkr := (i32NonPos_iff_key (r.tsn - cum)).mp hc
+      have hklo : i32Key (lo.tsn - cum) ≤ 2147483648 := Nat.le_trans (hle r hr) hkr
+      have hclo : Covered cum lo = true := (i32NonPos_iff_key (lo.tsn - cum)).mpr hklo
+      have hw := hwin lo hmem hclo
+      have hneg : i32Neg (cum - (lo.tsn - 1)) = false := by
+        simp only [i32Neg, ge_iff_le, decide_eq_false_iff_not, UInt32.le_iff_toNat_le, Nat.not_le]
+        have e : (cum - (lo.tsn - 1)).toNat = ((cum - lo.tsn).toNat + 1) % 4294967296 := by
+          have h1 := lo.tsn.toNat_lt
+          have h2 := cum.toNat_lt
+          simp only [UInt32.toNat_sub, UInt32.toNat_one]
+          omega
+        rw [e]
+        show _ < 2147483648
+        omega
+      simp [lateSack, hlo, hneg] at hl
 
-/-- **no_rexmit_after_covering_sack — witness of failure at the TSN wrap.** With TSNs
-`0xFFFFFFFE` (outstanding) and `0` in the sent queue, the BTreeMap's numerically lowest key is `0`;
-a SACK with cumulative TSN `0xFFFFFFFE` — which covers the outstanding chunk — is taken for a
-"late" SACK and dropped, and the chunk stays queued for retransmission. The full statement
-(`∀ q cum …, ∀ r ∈ result, ¬ Covered cum r`) is therefore false for the code as it is. -/
-theorem no_rexmit_after_covering_sack_witness :
-    ¬ (∀ (q : List SRec) (cum : UInt32) (gaps : List (UInt16 × UInt16)) (now : Nat) (cm : Bool) (mx : Nat),
-        ∀ r ∈ (applySack q cum gaps now cm mx).1, Covered cum r = false) := by
-  intro h
-  have := h [{ tsn := 0, len := 100 }, { tsn := 0xFFFFFFFE, len := 100 }] 0xFFFFFFFE [] 10 true 8
-    { tsn := 0xFFFFFFFE, len := 100 } (by decide)
-  revert this
+/-- non-vacuity, across the TSN wrap: the queue `{0xFFFFFFFE, 0}` and a SACK with cumulative TSN
+`0xFFFFFFFE` (the history on which the code used to retransmit the covered chunk) -/
+example : (∀ r ∈ [({ tsn := 0, len := 100 } : SRec), { tsn := 0xFFFFFFFE, len := 100 }],
+      Covered 0xFFFFFFFE r = true → ((0xFFFFFFFE : UInt32) - r.tsn).toNat < 2147483647) ∧
+    (applySack [{ tsn := 0, len := 100 }, { tsn := 0xFFFFFFFE, len := 100 }] 0xFFFFFFFE [] 10 true 8).1.map (·.tsn) = [0] := by
   decide
 
 /-! ### quiescence -/
